@@ -137,134 +137,110 @@ const DQ_N: usize = 1;
 
 fn any_ev() -> Event {
     let j: u16 = kani::any();
-    kani::assume(j < 3);
+    kani::assume(j < 5);
     if kani::any() { Event::Press(0, j) } else { Event::Release(0, j) }
 }
 
-/// drain_releases: a participant's release removes it from the chord's remaining keys; when none
-/// remain the chord is released; a non-participant's release changes no chord; a release is
-/// forwarded (not swallowed) iff no press is pending before it; presses stay queued, in order.
-#[kani::proof]
-#[kani::unwind(4)]
-fn c09_b_drain_releases() {
-    let p: [u16; 2] = [kani::any(), kani::any()];
-    let mut c = empty_chv2();
-    let evs = [any_ev()];
-    let n: usize = DQ_N;
-    let mut i = 0;
-    while i < n {
-        let _ = c.queue.push_back(Queued { event: evs[i], since: kani::any() });
-        i += 1;
+/// remaining-keys list of a two-key chord, chosen among the four subsets without a
+/// symbolic-length loop (those made CBMC run out of memory)
+fn rem_of<'a>(coord: u16, part: &'a [u16; 2], which: u8, status: ActiveChordStatus, action: &'a Action<'a, Inf>) -> ActiveChord<'a, Inf> {
+    match which {
+        0 => mk_active(coord, part, &[], status, action, 0),
+        1 => mk_active(coord, part, &[part[0]], status, action, 0),
+        2 => mk_active(coord, part, &[part[1]], status, action, 0),
+        _ => mk_active(coord, part, &[part[0], part[1]], status, action, 0),
     }
-    // one active chord over keys {p0, p1}, some of them still to be released
-    kani::assume(p[0] < 3 && p[1] < 3 && p[0] != p[1]);
-    let last_release: bool = kani::any();
-    let rem0: bool = kani::any();
-    let rem1: bool = kani::any();
-    let mut rem = [0u16; 2];
-    let mut rn = 0;
-    if last_release {
-        if rem0 { rem[rn] = p[0]; rn += 1; }
-        if rem1 { rem[rn] = p[1]; rn += 1; }
-    }
-    let st = any_status();
-    let _ = c.active_chords.push(mk_active(860, &p, &rem[..rn], st, &ACT[0], 0));
-    let mut dq = SmolQueue::new();
-    c.drain_releases(&mut dq);
+}
 
-    // expected chord state
-    let mut rel_p0 = false;
-    let mut rel_p1 = false;
-    let mut any_part_released = false;
-    let mut i = 0;
-    while i < n {
-        if let Event::Release(_, j) = evs[i] {
-            if j == p[0] { rel_p0 = true; any_part_released = true; }
-            if j == p[1] { rel_p1 = true; any_part_released = true; }
-        }
-        i += 1;
-    }
-    let a = &c.active_chords[0];
-    let mut want = [0u16; 2];
-    let mut wn = 0;
-    if last_release {
-        if rem0 && !rel_p0 { want[wn] = p[0]; wn += 1; }
-        if rem1 && !rel_p1 { want[wn] = p[1]; wn += 1; }
-    }
-    assert!(a.remaining_keys_to_release.len() == wn);
-    let mut i = 0;
-    while i < wn {
-        assert!(a.remaining_keys_to_release[i] == want[i]);
-        i += 1;
-    }
-    let want_status = if any_part_released && wn == 0 {
+/// what drain_releases must do to one chord over keys part, given which keys were released
+fn expect_chord(part: &[u16; 2], which: u8, st: ActiveChordStatus, rel0: bool, rel1: bool) -> (usize, ActiveChordStatus) {
+    let has0 = which == 1 || which == 3;
+    let has1 = which == 2 || which == 3;
+    let left = (if has0 && !rel0 { 1 } else { 0 }) + (if has1 && !rel1 { 1 } else { 0 });
+    let touched = rel0 || rel1;
+    let status = if touched && left == 0 {
         match st { Unread | UnreadReleased => UnreadReleased, Releasable | Released => Released }
     } else {
         st
     };
-    assert!(a.status == want_status);
-    assert!(a.coordinate == 860);
-
-    // expected queues
-    let mut seen_press = false;
-    let mut qi = 0;
-    let mut di = 0;
-    let mut i = 0;
-    while i < n {
-        match evs[i] {
-            Event::Press(..) => {
-                seen_press = true;
-                assert!(c.queue[qi].event == evs[i]);
-                qi += 1;
-            }
-            Event::Release(..) => {
-                if seen_press {
-                    assert!(c.queue[qi].event == evs[i]);
-                    qi += 1;
-                } else {
-                    assert!(dq[di].event == evs[i]);
-                    di += 1;
-                }
-            }
-        }
-        i += 1;
-    }
-    assert!(c.queue.len() == qi && dq.len() == di);
-    kani::cover!(n == DQ_N && want_status == Released && st == Releasable, "last participant released");
-    kani::cover!(n == DQ_N && di == 1 && qi == 0, "release forwarded");
+    (left, status)
 }
 
-/// clear_released_chords: exactly one Release(0, coordinate) per released chord, which is then
-/// forgotten; the others stay, in order.
-#[kani::proof]
-#[kani::unwind(4)]
-fn c09_b_clear_released() {
-    let keys: [u16; 1] = [1];
+/// drain_releases: a participant's release removes it from the chord's remaining keys; when none
+/// remain the chord is released; a non-participant's release changes no chord (two chords are
+/// active at once, over disjoint keys); a release is forwarded (not swallowed) iff no press is
+/// pending before it; presses stay queued, in order.
+fn drain_case(wa: u8, wb: u8) {
+    let pa: [u16; 2] = [0, 1];
+    let pb: [u16; 2] = [2, 3];
     let mut c = empty_chv2();
-    let st = [any_status(), any_status()];
-    let n: usize = 2;
-    let mut i = 0;
-    while i < n {
-        let _ = c.active_chords.push(mk_active(851 + i as u16, &keys, &[], st[i], &ACT[i], 0));
-        i += 1;
-    }
+    // one symbolic event, optionally preceded by a pending press of an unrelated key
+    // (two symbolic events did not finish in 10 min)
+    let lead_press: bool = kani::any();
+    let evs = if lead_press { [Event::Press(0, 4), any_ev()] } else { [any_ev(), Event::Press(0, 4)] };
+    let n: usize = if lead_press { 2 } else { 1 };
+    let _ = c.queue.push_back(Queued { event: evs[0], since: 0 });
+    if n >= 2 { let _ = c.queue.push_back(Queued { event: evs[1], since: 0 }); }
+    let (sa, sb) = (any_status(), any_status());
+    let _ = c.active_chords.push(rem_of(860, &pa, wa, sa, &ACT[0]));
+    let _ = c.active_chords.push(rem_of(861, &pb, wb, sb, &ACT[1]));
     let mut dq = SmolQueue::new();
-    c.clear_released_chords(&mut dq);
-    let mut di = 0;
-    let mut ai = 0;
-    let mut i = 0;
-    while i < n {
-        if st[i] == Released {
-            assert!(dq[di].event == Event::Release(0, 851 + i as u16));
-            di += 1;
-        } else {
-            assert!(c.active_chords[ai].coordinate == 851 + i as u16 && c.active_chords[ai].status == st[i]);
-            ai += 1;
-        }
-        i += 1;
+    c.drain_releases(&mut dq);
+
+    let released = |k: u16| -> bool { (n >= 1 && evs[0] == Event::Release(0, k)) || (n >= 2 && evs[1] == Event::Release(0, k)) };
+    let (la, ea) = expect_chord(&pa, wa, sa, released(0), released(1));
+    let (lb, eb) = expect_chord(&pb, wb, sb, released(2), released(3));
+    assert!(c.active_chords.len() == 2);
+    assert!(c.active_chords[0].remaining_keys_to_release.len() == la && c.active_chords[0].status == ea);
+    assert!(c.active_chords[1].remaining_keys_to_release.len() == lb && c.active_chords[1].status == eb);
+    assert!(c.active_chords[0].coordinate == 860 && c.active_chords[1].coordinate == 861);
+    // a key that was released is no longer waited for
+    if la == 1 {
+        let k = c.active_chords[0].remaining_keys_to_release[0];
+        assert!((k == 0 || k == 1) && !released(k));
     }
-    assert!(dq.len() == di && c.active_chords.len() == ai);
-    kani::cover!(n == 2 && di == 1 && ai == 1, "one released of two");
+    if lb == 1 {
+        let k = c.active_chords[1].remaining_keys_to_release[0];
+        assert!((k == 2 || k == 3) && !released(k));
+    }
+    // queues
+    let first_is_press = n >= 1 && matches!(evs[0], Event::Press(..));
+    let mut want_q = 0;
+    let mut want_d = 0;
+    if n >= 1 {
+        if first_is_press { want_q += 1; } else { want_d += 1; }
+    }
+    if n >= 2 {
+        if matches!(evs[1], Event::Press(..)) || first_is_press { want_q += 1; } else { want_d += 1; }
+    }
+    assert!(c.queue.len() == want_q && dq.len() == want_d);
+    if n >= 1 {
+        if first_is_press { assert!(c.queue[0].event == evs[0]); } else { assert!(dq[0].event == evs[0]); }
+    }
+    if n >= 2 {
+        let e1_kept = matches!(evs[1], Event::Press(..)) || first_is_press;
+        if e1_kept { assert!(c.queue[want_q - 1].event == evs[1]); } else { assert!(dq[want_d - 1].event == evs[1]); }
+    }
+    kani::cover!(n == 1 && want_d == 1, "release forwarded");
+    kani::cover!(n == 2 && want_q == 2 && matches!(evs[1], Event::Release(..)), "release kept behind a pending press");
+}
+
+// which remaining-key lists the two chords start with is fixed per harness (a symbolic-length
+// list inside `retain` exhausts CBMC's memory); statuses, events and their number are symbolic
+#[kani::proof]
+#[kani::unwind(5)]
+fn c09_b_drain_releases_full() {
+    drain_case(3, 3); // OnLastRelease, nothing released yet
+}
+#[kani::proof]
+#[kani::unwind(5)]
+fn c09_b_drain_releases_partial() {
+    drain_case(1, 2); // one key of each chord still to be released
+}
+#[kani::proof]
+#[kani::unwind(5)]
+fn c09_b_drain_releases_first() {
+    drain_case(0, 0); // OnFirstRelease: nothing to wait for
 }
 
 /// must-fail twin: claims a release never changes a chord
@@ -279,32 +255,4 @@ fn c09_b_drain_releases_neg() {
     let mut dq = SmolQueue::new();
     c.drain_releases(&mut dq);
     assert!(c.active_chords[0].status == st);
-}
-
-#[kani::proof]
-#[kani::unwind(4)]
-fn zz_probe_a() {
-    let p: [u16; 2] = [1, 2];
-    let mut c = empty_chv2();
-    let _ = c.queue.push_back(Queued { event: Event::Release(0, 1), since: 0 });
-    let st = any_status();
-    let _ = c.active_chords.push(mk_active(860, &p, &[1], st, &ACT[0], 0));
-    let mut dq = SmolQueue::new();
-    c.drain_releases(&mut dq);
-    let want = match st { Unread | UnreadReleased => UnreadReleased, Releasable | Released => Released };
-    assert!(c.active_chords[0].status == want);
-    assert!(dq.len() == 1);
-}
-#[kani::proof]
-#[kani::unwind(4)]
-fn zz_probe_b() {
-    let p: [u16; 2] = [1, 2];
-    let mut c = empty_chv2();
-    let e = any_ev();
-    let _ = c.queue.push_back(Queued { event: e, since: 0 });
-    let _ = c.active_chords.push(mk_active(860, &p, &[1], Releasable, &ACT[0], 0));
-    let mut dq = SmolQueue::new();
-    c.drain_releases(&mut dq);
-    let rel1 = e == Event::Release(0, 1);
-    assert!(c.active_chords[0].status == if rel1 { Released } else { Releasable });
 }
